@@ -433,6 +433,7 @@ def emit(facts, path):
     if os.path.exists(path):
         old = open(path).read()
     if old != text:
+        os.makedirs(os.path.dirname(os.path.abspath(path)), exist_ok=True)
         with open(path, "w") as fh:
             fh.write(text)
     return text
